@@ -699,6 +699,13 @@ func EvalFunction(env *Zlisp, name string, args []Sexp) (Sexp, error) {
 	}
 	//P("EvalFunction() called, name = '%s'; args = %#v", name, (&SexpArray{Val: args}).SexpString(0))
 
+	// data handed over as code can contain itself ((aset a 0 a) (eval a))
+	for _, x := range args {
+		if selfContaining(x) {
+			return SexpNull, fmt.Errorf("cannot compile an expression: %v", errSelfContaining)
+		}
+	}
+
 	// Instead of LoadExpressions:
 	args = env.FilterArray(args, RemoveCommentsFilter)
 	args = env.FilterArray(args, RemoveEndsFilter)
